@@ -346,10 +346,13 @@ def finish(ctx, confirm=None):
         with open(path, "w") as f:
             json.dump(dict(property=ctx.pid, descr=v["descr"], kind=v["kind"], stage=v.get("stage"),
                            case=v.get("case"), obs=v.get("obs"), exp=v.get("exp")), f)
-        if shown < 50:
+        if shown < 20:
             print("VIOLATION property=%s replay=%s" % (ctx.pid, path))
-            log("  " + v["descr"][:400])
+            if shown < 8:
+                log("  " + v["descr"][:600])
         shown += 1
+    if shown > 20:
+        log("... %d violations in total (replay files in %s)" % (shown, rdir))
     write_evidence(ctx, len(violations), sorted(knownhits))
     ctx.cleanup()
     return 1 if violations else 0
